@@ -601,6 +601,10 @@ m("narrow-parseint-uint-magnitude", "NUM-NARROW", ["C13"], "break", TU,
   "\t\t// Skip over the '0x' prefix.\n\t\tdigits = digits[2:]\n", "\t\t// Skip over the '0x' prefix.\n\t\tdigits = digits[2:]\n\t\tif mag, err := strconv.ParseUint(digits, radix, 64); err == nil && mag <= 1<<63 && !neg {\n\t\t\treturn int64(mag), nil\n\t\t}\n", "parseInt", False,
   "0x8000000000000000 is read as -2^63")
 
+m("nextvisit-discard-fast-path", "TAB-NEXTVISIT", ["C20"], "break", PR,
+  "\tfor in.Next() {\n\t\tp.idx++\n", "\tfor in.Next() {\n\t\tp.idx++\n\t\tif p.format == \"none\" {\n\t\t\tcontinue\n\t\t}\n", "Next on", True,
+  "with -f none the values are skipped, not validated: invalid Ion inside a container goes unreported (two independent seeded changes)")
+
 os.makedirs(os.path.dirname(os.path.abspath(__file__)), exist_ok=True)
 with open(os.path.join(os.path.dirname(os.path.abspath(__file__)), "core.json"), "w") as f:
     json.dump(M, f, indent=1)
